@@ -191,6 +191,20 @@ def run_histories(sh, *, select, make_cfg=None, steps_range=(4, 8), twin_prob=0.
                 if handle_divs(sh, w, program, sr, select):
                     cut = True
                     break
+                if label != 'failing' and rng.random() < 0.12:
+                    # a streak: the very same build two more times with nothing in between (an entry is
+                    # served from the cache for the second and third consecutive time, copied from one
+                    # cache generation to the next)
+                    for _rep in range(2):
+                        sr = w.build(program, body, vers, label=label)
+                        sh.evaluations += 1
+                        sh.count('streak_rebuilds')
+                        account_build(sh, sr)
+                        if handle_divs(sh, w, program, sr, select):
+                            cut = True
+                            break
+                    if cut:
+                        break
                 if after_build is not None:
                     if after_build(w, program, sr, dict(rng=rng, cfg=cfg, body=body, vers=vers,
                                                         label=label)):
